@@ -509,6 +509,24 @@ func init() {
 				}
 			}
 		}
+		// bounds and initial values given as TEXT (a string / bytes variable, a ctx literal): decimal integers count,
+		// empty text is 0, anything else — a fraction, blanks, words, an integer beyond int64 — is a wrong bound: the
+		// render returns an error or renders nothing, it never loops on the 0 / MaxInt64 ParseInt returns with its error
+		for _, txt := range []string{"3", "-2", "+2", "0", "", "3.0", " 3", "3 ", "abc", "99999999999999999999", "-99999999999999999999", "9223372036854775807", "9223372036854775808", "1e2", "--1"} {
+			for _, kind := range []string{"static", "bytes", "string"} {
+				for _, hdr := range []string{`{% for i := 0; i < n; i++ sep , %}`, `{% for i := n; i < 4; i++ sep , %}`, `{% for i := 1; i >= n; i-- sep , %}`} {
+					src := `a` + hdr + `{%= i %}{% break if i == 5 %}{% lazybreak if i == -4 %}{% else %}E{% endfor %}b`
+					c := &RCase{Tpls: []TplDef{{Key: "main", Src: src, KeepFmt: true}}, Meta: map[string]any{"text-bound": txt, "kind": kind, "loop": hdr}}
+					var val any = txt
+					if kind == "bytes" {
+						val = []byte(txt)
+					}
+					c.Ops = []SOp{{Kind: kind, Name: "n", Val: val}, {Kind: "render", Key: "main"}, {Kind: "render", Key: "main"}}
+					cases = append(cases, c)
+					r.Dist["text-bound"]++
+				}
+			}
+		}
 		runSessions(r, cases, outputDiffers)
 		loopVarNames(r)
 		indexedRangeSource(r)
